@@ -93,7 +93,7 @@ def create(name, acq_name, from_file, md5, prefix, size):
     if rejection_reason:
         raise click.ClickException(f"invalid name: {rejection_reason}")
 
-    validate_md5(md5)
+    md5 = validate_md5(md5)
 
     # Scan a file, if requested
     if from_file:
